@@ -321,7 +321,7 @@ theorem c10_history_current_witness_stale_part :
 theorem c10_history {maxLen A : Nat} {name : Str} (ops : List JarOp) (jar0 : Jar)
     (hname : name.length ≤ 256) (hnc : NoCollision name)
     (hjar0 : ∀ n, matchesSessionName name n = true → jarGet jar0 n = none)
-    (hops : ∀ v, JarOp.save v ∈ ops →
+    (hops : ∀ v, (JarOp.save v ∈ ops ∨ JarOp.saveClear v ∈ ops) →
       v.length ≤ 9223372036854775807 ∧ Progress maxLen A name v.length) :
     loadCookie (runFixed maxLen A name ops jar0) name = lastSaved name ops := by
   rcases List.eq_nil_or_concat ops with rfl | ⟨l, b, rfl⟩
@@ -345,11 +345,19 @@ theorem c10_history {maxLen A : Nat} {name : Str} (ops : List JarOp) (jar0 : Jar
       obtain ⟨cs, hcs, hsh⟩ := shape_saveFixed hname hlen hp (runFixed maxLen A name l jar0)
       simp only [stepWith, hcs]
       exact hsh.load hnc
+    | saveClear v =>
+      have hl : lastSaved name (l ++ [JarOp.saveClear v]) = none := by
+        simp [lastSaved]
+      rw [hl]
+      obtain ⟨hlen, hp⟩ := hops v (by simp)
+      obtain ⟨cs, hcs, _⟩ := shape_saveFixed hname hlen hp (runFixed maxLen A name l jar0)
+      simp only [stepWith, hcs, clearAfter_saveFixed hname hlen hp _ hcs]
+      exact (shape_clear name _).load hnc
 
 /-- the same with plain numeric hypotheses and an initially empty jar -/
 theorem c10_history_simple {maxLen A : Nat} {name : Str} (ops : List JarOp)
     (hname : name.length ≤ 255) (hA : name.length + A + 12 < maxLen)
-    (hlen : ∀ v, JarOp.save v ∈ ops → v.length < 10000000000) :
+    (hlen : ∀ v, (JarOp.save v ∈ ops ∨ JarOp.saveClear v ∈ ops) → v.length < 10000000000) :
     loadCookie (runFixed maxLen A name ops []) name = lastSaved name ops :=
   c10_history ops [] (by omega) (noCollision_of_length hname) (fun _ _ => rfl)
     (fun v hv => ⟨by have := hlen v hv; omega, progress_of_simple hA (hlen v hv)⟩)
@@ -359,7 +367,7 @@ theorem c10_history_simple {maxLen A : Nat} {name : Str} (ops : List JarOp)
 theorem c10_history_shape {maxLen A : Nat} {name : Str} (ops : List JarOp) (jar0 : Jar)
     (hname : name.length ≤ 256)
     (hjar0 : ∀ n, matchesSessionName name n = true → jarGet jar0 n = none)
-    (hops : ∀ v, JarOp.save v ∈ ops →
+    (hops : ∀ v, (JarOp.save v ∈ ops ∨ JarOp.saveClear v ∈ ops) →
       v.length ≤ 9223372036854775807 ∧ Progress maxLen A name v.length) :
     Shape name (runFixed maxLen A name ops jar0) ((lastSaved name ops).map Prod.snd) := by
   rcases List.eq_nil_or_concat ops with rfl | ⟨l, b, rfl⟩
@@ -383,6 +391,38 @@ theorem c10_history_shape {maxLen A : Nat} {name : Str} (ops : List JarOp) (jar0
       obtain ⟨cs, hcs, hsh⟩ := shape_saveFixed hname hlen hp (runFixed maxLen A name l jar0)
       simp only [stepWith, hcs]
       exact hsh
+    | saveClear v =>
+      have hl : lastSaved name (l ++ [JarOp.saveClear v]) = none := by
+        simp [lastSaved]
+      rw [hl]
+      obtain ⟨hlen, hp⟩ := hops v (by simp)
+      obtain ⟨cs, hcs, _⟩ := shape_saveFixed hname hlen hp (runFixed maxLen A name l jar0)
+      simp only [stepWith, hcs, clearAfter_saveFixed hname hlen hp _ hcs]
+      exact shape_clear name _
+
+/-- **clear_in_same_response_load_none** (C10 "after a clear, nothing loads" / C11, for a clear that
+    shares its response with a save — a refresh whose result then fails validation, or a sign-out
+    request that itself refreshed the session): whatever the browser held and however the saved
+    session was laid out, after applying that one response nothing loads. -/
+theorem clear_in_same_response_load_none {maxLen A : Nat} {name v : Str} (hname : name.length ≤ 256)
+    (hnc : NoCollision name) (hlen : v.length ≤ 9223372036854775807)
+    (hp : Progress maxLen A name v.length) (jar : Jar) {cs : List SetCookie}
+    (h : saveFixed maxLen A name v jar = .ok cs) :
+    loadCookie (applySetCookies jar (clearAfter name cs jar)) name = none := by
+  rw [clearAfter_saveFixed hname hlen hp jar h]
+  exact (shape_clear name jar).load hnc
+
+-- regression witness for the fix "do not keep session cookies written earlier in the response when
+-- the cookie store clears the session": before it (`clearAfterOld`) a browser holding the unsplit
+-- cookie kept the freshly written parts and stayed signed in
+set_option maxRecDepth 20000 in
+example :
+    (match saveFixed 40 0 "s".toList (big 120) [("s".toList, small)] with
+     | .ok cs =>
+        decide (loadCookie (applySetCookies [("s".toList, small)] (clearAfterOld "s".toList cs [("s".toList, small)])) "s".toList
+            = some ("s".toList, big 120)) &&
+        decide (loadCookie (applySetCookies [("s".toList, small)] (clearAfter "s".toList cs [("s".toList, small)])) "s".toList = none)
+     | _ => false) = true := by decide
 
 -- the witnesses that break the current code are repaired by the fix
 example : loadCookie (runFixed 40 0 "s".toList [.save small, .save (big 60)] []) "s".toList
